@@ -283,7 +283,13 @@ def task_wire_branch():
         log = []
 
         def rec(it, args, kw, node):
-            log.append(('segment', kw.get('points'), kw.get('nodes')))
+            # effective parameters of the recursive call (positional and keyword forms are the same call)
+            from .c0910 import bind_call
+            try:
+                b = bind_call('fields._dipole_vector', args, kw)
+            except Exception:
+                raise cx.Unsupported('recursive call of _dipole_vector cannot be bound to its signature')
+            log.append(('segment', b.get('points'), b.get('nodes')))
             return vec_field('segment-field')
 
         def field(it, args, kw, node):
